@@ -1,4 +1,7 @@
-"""one-off: (re)write the C17 entries of known_findings.json; each witness is replayed on /repo here"""
+"""one-off: (re)write the C17 entries of known_findings.json; each witness is replayed on the
+library here.  Entries repaired in the library (status "fixed") are kept as they are - all seven
+are by now (vanish_last_doc / vanish_last_index by fix 93f3c92: existence is recorded); an entry of
+W that is not yet recorded as fixed must still deviate, or this script stops."""
 import json, os, sys
 sys.path.insert(0, os.path.dirname(os.path.abspath(__file__)))
 import common, wire
